@@ -307,8 +307,17 @@ pub fn capability_merge<S: Src>(s: &mut S) {
 
 /// C07/C09: `Capability::from_raw(raw(c)) == c`; unknown kinds are errors, never panics.
 pub fn capability_raw_roundtrip<S: Src>(s: &mut S) {
+    crypto::reset();
     let kind = s.u8();
-    let bytes: [u8; 32] = s.arr();
+    let mut bytes: [u8; 32] = s.arr();
+    // the stored id may be one that is not a curve point (read capabilities hold any 32 bytes); natively the
+    // ideal scheme's abstract "not a curve point" is concretised by an id that ed25519 really rejects
+    if s.bool() {
+        if s.is_replay() {
+            bytes = [2u8; 32];
+        }
+        crypto::cm().noncurve[0] = Some(bytes);
+    }
     let res = Capability::from_raw(kind, &bytes);
     cv!(s, kind == 1, "capability_raw: write kind");
     cv!(s, kind == 2, "capability_raw: read kind");
